@@ -1,5 +1,5 @@
 """C10 - LLL / HNF: structural clauses (E6 mirroring, E2 exact nearest-integer quotient)."""
-import e6_mirror, e2_float, e14_homog
+import e6_mirror, e2_float, e14_homog, e25_lllorder
 
 LEVEL = 'other'
 EXPLANATION = ('Static analysis of yui_matrix::dense::lll on MIR: (M2) LLLData::{swap, mul_row, add_row_to} and the final row reversal of '
@@ -24,4 +24,6 @@ def run(ctx, rep):
     e6_mirror.run_lll(facts, rep)
     rep.rule('E14', e14_homog.__doc__.strip().split('\n')[0])
     e14_homog.run(facts, rep)
+    rep.rule('E25', e25_lllorder.__doc__.strip().split('\n')[0])
+    e25_lllorder.run(facts, rep)
     e2_float.apply(facts, rep, scope, 'C10', floor_scope=35)
